@@ -10,33 +10,11 @@ excluded by `D` being a linear order); `hyb d` stands for `-1 * d * weight`.
 -/
 import Mathlib.Data.Nat.Basic
 import SemaModel.C03.Lemmas
+import SemaModel.Generated.FactsC10
 namespace Sema.C03
 open Sema.C10
 
 variable {D H : Type} [LinearOrder D]
-
-theorem key_edges_isSome (g : Graph) (i : Id) (h : i ∈ g.keys) : (g.edges i).isSome = true := by
-  unfold Graph.edges
-  obtain ⟨n, hn, rfl⟩ := List.mem_map.mp h
-  cases hf : g.nodes.find? (fun m => m.1 == n.1) with
-  | some _ => rfl
-  | none =>
-    have := List.find?_eq_none.mp hf n hn
-    simp at this
-
-/-- what a WF graph guarantees to the search: the entry node has a vector, every point with a vector has a
-node, and the points with a vector other than the entry node are exactly the live points carrying the field -/
-theorem wf_view (R : Nat) (g : Graph) (L : List Id) (h : WF R g L) :
-    g.view.hasVec entry = true ∧ (∀ i, g.view.hasVec i = true → i ∈ g.vecs) ∧
-    (∀ i, g.view.hasVec i = true → (g.view.edges i).isSome) ∧ (∀ i, g.view.hasVec i = true → i = entry ∨ i ∈ L) := by
-  obtain ⟨⟨_, _, hkv, _⟩, _, _, hkl, _⟩ := (C10_wf_meaning_aux R g L).mp h
-  have hv : ∀ i, g.view.hasVec i = true ↔ i ∈ g.vecs := by
-    intro i; simp [Graph.view, Graph.hasVec]
-  refine ⟨(hv _).mpr ((hkv _).mp ((hkl _).mpr (Or.inl rfl))), fun i hi => (hv i).mp hi, ?_, ?_⟩
-  · intro i hi
-    exact key_edges_isSome g i ((hkv i).mpr ((hv i).mp hi))
-  · intro i hi
-    exact (hkl i).mp ((hkv i).mpr ((hv i).mp hi))
 
 /-- the safety clauses of the property, for one answer `res` to a query with distance oracle `dq` -/
 structure Safe (L : List Id) (dq : Id → D) (hyb : D → H) (limit : Nat) (filter : Option (List Id))
@@ -338,6 +316,14 @@ theorem C03_exact_small (cfg : Cfg) (hR : 1 ≤ cfg.degreeBound) (steps : List (
     (fun st hst c hc hm => hne st hst c hc (by simpa [Graph.init, Graph.keys] using hm)) hsmall
   exact C03_exact_connected cfg.degreeBound _ _ hWF hB.conn dq hyb limit searchSize hk hroom
 
+
+/-! ### T2: syntactic facts of the source, regenerated on every check (tools/facts_c10) -/
+
+/-- the entry node id; point node ids start above it (so a pre-filter never contains the entry node) -/
+example : Sema.Gen.FactsC10.startId = entry ∧ entry < Sema.Gen.FactsC10.firstPointId := by decide
+
+/-- `IndexVamana.Search` skips the entry node before it tests the limit, as `search` does -/
+example : Sema.Gen.FactsC10.searchCuts = ["skipEntry", "limitCut"] := by decide
 
 /-! ### non-vacuity: the hypotheses of the theorems hold on concrete non-trivial states -/
 
